@@ -63,7 +63,7 @@ func pathOf(fset *token.FileSet, env tenv, x ast.Expr) []string {
 	case *ast.CallExpr:
 		// value conversions and formatting keep the source: T(x), int(x), string(x), strconv.Itoa(x), fmt.Sprintf("%g", x)
 		fn := exprString(fset, v.Fun)
-		if len(v.Args) == 1 {
+		if len(v.Args) == 1 && valuePreserving(fn) {
 			return pathOf(fset, env, v.Args[0])
 		}
 		if fn == "fmt.Sprintf" && len(v.Args) == 2 {
@@ -72,6 +72,18 @@ func pathOf(fset *token.FileSet, env tenv, x ast.Expr) []string {
 		return []string{"?" + fn}
 	}
 	return []string{"?" + exprString(fset, x)}
+}
+
+// valuePreserving: conversions and formatters whose result denotes the same value in a KFL comparison (a type
+// conversion, the decimal text of a number).  Any other call (unescaping, trimming, case folding, look-ups) may
+// change the value: its result is not the field any more.
+func valuePreserving(fn string) bool {
+	switch fn {
+	case "string", "int", "int8", "int16", "int32", "int64", "uint", "uint8", "uint16", "uint32", "uint64", "float32", "float64",
+		"strconv.Itoa", "ApiKey":
+		return true
+	}
+	return false
 }
 
 var clauseRe = regexp.MustCompile(`([A-Za-z_][A-Za-z_0-9.\[\]%d]*)\s*==\s*("?%[sdg]"?)`)
